@@ -57,7 +57,7 @@ func HarnessC10_TokLoginAck()     { c10Token(byte(TDS_LOGINACK), c10N(12, 18)) }
 func HarnessC10_TokMsg()          { c10Token(byte(TDS_MSG), c10N(6, 8)) }
 func HarnessC10_TokParamFmt()     { c10Token(byte(TDS_PARAMFMT), c10N(6, 12)) }
 func HarnessC10_TokParamFmt2()    { c10Token(byte(TDS_PARAMFMT2), c10N(8, 14)) }
-func HarnessC10_TokRowFmt()       { c10Token(byte(TDS_ROWFMT), c10N(9, 12)) }
+func HarnessC10_TokRowFmt()       { c10Token(byte(TDS_ROWFMT), c10N(7, 10)) }
 func HarnessC10_TokRowFmt2()      { c10Token(byte(TDS_ROWFMT2), c10N(8, 16)) }
 func HarnessC10_TokParams()       { c10Token(byte(TDS_PARAMS), c10N(8, 12)) }
 func HarnessC10_TokRow()          { c10Token(byte(TDS_ROW), c10N(8, 12)) }
